@@ -4,7 +4,7 @@
    gen_table_ok in the generated file), so that they apply to every generated type. *)
 From DV Require Import Base.Prelude Model.NameM Model.SchemaM Proofs.SchemaCodec Proofs.SchemaThm Proofs.SchemaFix Proofs.SchemaTable Proofs.SchemaOrigin.
 From DV Require Proofs.NameValid.
-From DV Require Import Model.DispatchM Proofs.SchemaDispatch Model.SchemaHand Proofs.SchemaHandThm.
+From DV Require Import Model.DispatchM Proofs.SchemaDispatch Model.SchemaHand Proofs.SchemaHandThm Proofs.SchemaTotal.
 Open Scope Z_scope.
 
 (* from_wire(to_wire(x)) = x for every well-formed schema and every value the constructor
@@ -43,6 +43,13 @@ Theorem inexact_consumption_is_formerror : forall o fs ck wire cur rdlen vs c,
   decode_rdata o fs ck wire cur rdlen = Lib eFormError.
 Proof. exact SchemaThm.inexact_consumption_is_formerror. Qed.
 Print Assumptions inexact_consumption_is_formerror.
+
+(* decoding ANY octets at any offset/length/origin terminates (the fuel of the repeat loops is
+   sufficient, names by C01's from_wire_total) with a record or a library exception *)
+Theorem decode_never_internal : forall o fs ck wire cur rdlen x,
+  schema_wf fs = true -> decode_rdata o fs ck wire cur rdlen <> Internal x.
+Proof. exact decode_never_internal_thm. Qed.
+Print Assumptions decode_never_internal.
 
 (* second half of the property: an accepted octet string yields a record whose own encoding
    exists, decodes to the same record, and is a fixed point of decode-then-encode *)
